@@ -19,7 +19,7 @@ pub fn garbage_line(rng: &mut Rng) -> String {
     let line = match rng.below(11) {
         10 => {
             // bytes that are not valid UTF-8 (marked, sent raw by the script runner)
-            let n = 1 + rng.below(12) as usize;
+            let n = if rng.chance(1, 3) { 20 + rng.below(200) as usize } else { 1 + rng.below(12) as usize };
             let mut hex = String::from("RAWHEX:");
             for i in 0..n {
                 let b: u8 = if i == 0 { b'z' } else { *rng.pick(&[0xffu8, 0xfe, 0xc0, 0x80, 0xed, 0xa0, b'a', b' ', 0xf5]) };
@@ -37,8 +37,8 @@ pub fn garbage_line(rng: &mut Rng) -> String {
             (0..n).map(|_| (32 + rng.below(95) as u8) as char).collect()
         }
         5 => {
-            // unicode
-            let n = 1 + rng.below(12) as usize;
+            // unicode (short, or long with characters of mixed byte widths)
+            let n = if rng.chance(1, 3) { 20 + rng.below(300) as usize } else { 1 + rng.below(12) as usize };
             (0..n).filter_map(|_| char::from_u32(match rng.below(3) { 0 => 0xA0 + rng.below(0x500) as u32, 1 => 0x4E00 + rng.below(0x2000) as u32, _ => 0x1F300 + rng.below(0x300) as u32 })).collect()
         }
         6 => format!("{} {}", rng.pick(&["foo", "stop", "debug", "ponder"]), rng.pick(&["position startpos", "go wtime 1000", "quit", "isready"])),
@@ -104,6 +104,13 @@ fn make_script(rng: &mut Rng, roots: &[History]) -> Script {
         if rng.chance(1, 3) {
             lines.push(("isready".into(), false));
         }
+    }
+    // the engine's one option, in both spellings GUIs use, somewhere early in half of the scripts
+    // (it switches the log file on: unknown lines are then also written there)
+    if rng.chance(1, 2) {
+        let at = rng.below(3.min(lines.len() as u64 + 1)) as usize;
+        let text = *rng.pick(&["setoption name DebugLogLevel value Info", "setoption name DebugLogLevel value None", "setoption name DebugLogLevel value Info", "setoption DebugLogLevel Info"]);
+        lines.insert(at, (text.into(), false));
     }
     // garbage inserted at random points
     let g = 3 + rng.below(30);
@@ -294,7 +301,7 @@ fn check_eof(bin: &PathBuf, rng: &mut Rng, roots: &[History], acc: &mut Acc, sid
 
 pub fn run(tier: Tier, seed: u64) -> i32 {
     let mut run = Run::new("C17", tier, seed, "exploration");
-    run.rule = "evaluation = one observation on a session of the real binary: (a) an isready probe after unknown lines, (b) the bestmove sequence of a script of well-formed commands (position + zero-slice go chains with unknown go tokens, ucinewgame, isready) with unknown/garbage lines inserted at random points compared with the same script without them, and with surplus blanks/tabs/trailing CR in the well-formed commands, (c) no 'panicked' on stderr and no exit, (d) quit ends the process within 2 s (solo-confirmed), (e) closing stdin before uci / after the handshake / mid-session / right after a timed go ends the process within slice + 2 s and it does not burn CPU meanwhile (process CPU time vs wall time over 300 ms). Unknown lines: empty, blanks/tabs, unknown words, random printable ASCII, Unicode, BOM, comment-like, 3000-character lines, bytes that are not valid UTF-8; never starting with a command word. Non-trivial = every script / EOF session; distinct by seed index".into();
+    run.rule = "evaluation = one observation on a session of the real binary: (a) an isready probe after unknown lines, (b) the bestmove sequence of a script of well-formed commands (position + zero-slice go chains with unknown go tokens, ucinewgame, isready) with unknown/garbage lines inserted at random points compared with the same script without them, and with surplus blanks/tabs/trailing CR in the well-formed commands, (c) no 'panicked' on stderr and no exit, (d) quit ends the process within 2 s (solo-confirmed), (b') the same script with its unknown lines written without waiting for any reply (one write / per line / pieces that cut lines in two) and ended by quit or end of input: same answers in the same order, the process gone within 2 s of the last answer and not spinning, (e) closing stdin before uci / after the handshake / mid-session / right after a timed go ends the process within slice + 2 s and it does not burn CPU meanwhile (process CPU time vs wall time over 300 ms). Unknown lines: empty, blanks/tabs, unknown words, random printable ASCII, Unicode, BOM, comment-like, 3000-character lines, bytes that are not valid UTF-8; never starting with a command word. Non-trivial = every script / EOF session; distinct by seed index".into();
     run.assumptions = vec![
         "garbage lines include byte sequences that are not valid UTF-8 (a line is whatever ends with a newline)".into(),
         "lines that begin with a known command word but are malformed are not 'unknown input' and are excluded".into(),
@@ -322,10 +329,14 @@ pub fn run(tier: Tier, seed: u64) -> i32 {
         let odd = run_script(&plain, &script, true, Some(&mut ws_rng), &mut acc, &label);
         acc.distinct.insert(hash64(&format!("script|{}", sid)));
         acc.feature("script_with_garbage");
+        if script.lines.iter().any(|l| !l.1 && l.0.starts_with("setoption") && l.0.contains("Info")) {
+            acc.feature("script_with_log_file_switched_on");
+        }
         acc.count("garbage_lines", n_garbage as u64);
         if sid < 2 {
             acc.sample(json!({"script_head": script.lines.iter().take(8).map(|(l, g)| format!("{}{}", if *g { "[garbage] " } else { "" }, truncate(l, 70))).collect::<Vec<_>>()}));
         }
+        let base_answers: Option<Vec<String>> = base.as_ref().map(|b| b.0.clone());
         if let (Some((a0, s0)), Some((a1, s1))) = (base, with) {
             acc.evaluations += 1;
             if a0 != a1 {
@@ -352,12 +363,48 @@ pub fn run(tier: Tier, seed: u64) -> i32 {
             check_quit(s1, &mut acc, &label, &mut slow);
             drop(s0);
         }
+        // the same script with its garbage, written without waiting for any reply and ended by
+        // quit or end of input: same answers, and the process goes away promptly
+        if let Some(a0) = &base_answers {
+            use super::pipe::{self, Chunking, End};
+            let lines: Vec<String> = script.lines.iter().map(|l| l.0.clone()).collect();
+            let end = if rng.chance(1, 2) { End::Eof } else { End::Quit };
+            let chunking = match rng.below(3) { 0 => Chunking::PerLine, 1 => Chunking::Pieces(1 + rng.below(60) as usize), _ => Chunking::OneWrite };
+            match pipe::run_pipelined(&plain, &SpawnOpts::default(), &lines, end, chunking, seed ^ sid as u64) {
+                Ok(obs) => {
+                    acc.evaluations += 1;
+                    acc.feature(if end == End::Eof { "pipelined_script_then_end_of_input" } else { "pipelined_script_then_quit" });
+                    let j = pipe::judge(&lines, &obs);
+                    if let Some(i) = &j.inconclusive {
+                        acc.inconclusive.push(i.clone());
+                    }
+                    let case = pipe::case_json("C17", &lines, end, chunking, Some(&obs));
+                    for (sig, what) in &j.problems {
+                        acc.violation(format!("C17|pipelined|{}|{}", sig, label), format!("script with unknown lines written without waiting for replies ({:?}, {:?}): {}", chunking, end, what), case.clone());
+                    }
+                    if j.problems.is_empty() && j.inconclusive.is_none() {
+                        let got: Vec<String> = j.answers.iter().map(|a| format!("bestmove {}", a)).collect();
+                        if &got != a0 {
+                            let at = a0.iter().zip(got.iter()).position(|(x, y)| x != y).unwrap_or(a0.len().min(got.len()));
+                            acc.violation(format!("C17|pipelined-state|{}", label), format!("the script with its unknown lines, written without waiting for replies, is answered differently from the clean script sent step by step: answer #{} is {:?} instead of {:?}", at + 1, got.get(at), a0.get(at)), case.clone());
+                        }
+                    }
+                    for (sig, what) in pipe::lifecycle_problems(&obs, end) {
+                        acc.violation(format!("C17|pipelined-{}|{}", sig, label), format!("script written without waiting for replies ({:?}): {}", chunking, what), case.clone());
+                    }
+                    if let Some(ms) = obs.exit_ms {
+                        acc.max("max_pipelined_exit_ms", ms);
+                    }
+                }
+                Err(e) => acc.inconclusive.push(format!("pipelined session failed to start: {}", e)),
+            }
+        }
         check_eof(&plain, &mut rng, &roots, &mut acc, sid);
         (acc, slow)
     });
     let mut slow_all = Vec::new();
     for (a, sl) in res {
-        run.acc.merge(a, &["max_quit_ms"]);
+        run.acc.merge(a, &["max_quit_ms", "max_pipelined_exit_ms"]);
         slow_all.extend(sl);
     }
     // solo confirmation: quit not honoured within 2 s
